@@ -219,6 +219,9 @@ class calc_text_pos:
                 yield "maximal", sc + width_at(t, p) > a.pref_col
         elif a.g__byte_encoding == "utf8":
             yield "lands-on-a-character-boundary", BND(t, a.start_offs, p)
+            # decode steps never run past the end of the text, and not past end_offs when that is a character boundary
+            # (a step that jumped over end_offs would have it among its continuation bytes)
+            yield "position-in-range-when-the-end-is-a-character-boundary", both(p <= tlen(t), implies(at_boundary(t, a.end_offs), p <= a.end_offs))
             yield "column-is-width-of-prefix", sc == COL(t, p) - COL(t, a.start_offs)
             if p < a.end_offs:
                 o, nxt = decode_one.spec_value(None, text=t, pos=p)
@@ -233,7 +236,7 @@ class calc_text_pos:
     loops = {
         0: Loop(invariant=lambda v: both(
             v.start_offs <= v.i, v.sc == COL(v.text, v.i) - COL(v.text, v.start_offs), 0 <= v.sc, v.sc <= v.pref_col,
-            BND(v.text, v.start_offs, v.i), v.i <= tlen(v.text)),
+            BND(v.text, v.start_offs, v.i), v.i <= tlen(v.text), implies(at_boundary(v.text, v.end_offs), v.i <= v.end_offs)),
             decreases=lambda v: tlen(v.text) - v.i)
     }
 
